@@ -300,10 +300,14 @@ def check(col, prog, tier, profile, fixture=None):
                 stores = [e for e in st.event_list() if e.kind == "store" and e.place == selfp]
                 if r[0] == "agg" and r[1][3] == "None":
                     if nm == "next_submask":
-                        okn = ("eq", ("bin", "Eq", old, mk_int(0)), 1) in st.facts and not stores
+                        okn = (("eq", ("bin", "Eq", old, mk_int(0)), 1) in st.facts or any(f[0] == "eq" and f[1] == old and f[2] == 0 and not isinstance(f[2], bool) for f in st.facts)) and not stores
                     else:
                         okn = any(f[0] == "eq" and f[2] == 1 and isinstance(f[1], tuple) and f[1][0] == "bin" and f[1][1] == "Eq" and f[1][3] == mk_int(0) and f[1][2][0] == "call" and str(f[1][2][1]).endswith("count_zeros") for f in st.facts) and not stores
                         okn = okn or (any(f[0] == "eq" and f[2] == 1 and isinstance(f[1], tuple) and f[1][0] == "bin" and f[1][1] == "Eq" and ((f[1][2] == old and all_ones(f[1][3])) or (f[1][3] == old and all_ones(f[1][2]))) for f in st.facts) and not stores)
+                        # `match current.count_zeros() { 0 => None, .. }`
+                        okn = okn or (any(f[0] == "eq" and f[2] == 0 and not isinstance(f[2], bool) and isinstance(f[1], tuple) and f[1] and f[1][0] == "call" and str(f[1][1]).endswith("count_zeros") and f[1][2][0] == old for f in st.facts) and not stores)
+                        # `match current { MAX_PATTERN => None, .. }` on the value itself
+                        okn = okn or (any(f[0] == "eq" and f[1] == old and isinstance(f[2], int) and not isinstance(f[2], bool) and all_ones(mk_int(f[2] if f[2] < (1 << (nbits - 1)) or ty.startswith("u") else f[2] - (1 << nbits))) for f in st.facts) and not stores)
                 elif r[0] == "agg" and r[1][3] == "Some":
                     v = stores[-1].val if stores else None
                     if v is not None and v[0] == "bin":
@@ -525,17 +529,27 @@ def check(col, prog, tier, profile, fixture=None):
 
     # ---------------- I6
     FLAG0 = [("first", mk_int(1))]   # (name of the bool field, its value before the first item is yielded)
+    DATA_NAME = ["data"]
     b = util.need_body(crate, "permutations::iter_permutations")
-    I = util.analyse(b)
+    # constructors of the iterator type (PermutationIter::new(data)) and private helpers are inlined
+    ctor_helpers = [m for m in crate.bodies if not m.is_closure and m.kind in ("Fn", "AssocFn") and not util.self_recursive(m) and m.key != b.key and (m.vis != "pub" or ("PermutationIter" in m.path and not (crate.impl_of(m) or {}).get("of_trait")))]
+    I = util.analyser(ctor_helpers, features=("comb", "fncall"))(b)
     for st in I.final_states:
         evs = st.event_list()
         srt = [k for k, e in enumerate(evs) if e.kind == "call" and e.extra.get("name") in ("sort", "sort_unstable")]
         r = util.ret_term(st)
-        ok = bool(srt) and r[0] == "agg" and isinstance(r[1], tuple) and r[1][0] == "adt" and r[1][1].endswith("PermutationIter")
+        # nothing to order for fewer than two elements: the sort may be skipped under a fact len <= 1
+        tiny = any(f[0] == "eq" and isinstance(f[1], tuple) and f[1] and f[1][0] == "bin" and isinstance(f[1][2], tuple) and f[1][2] and f[1][2][0] == "len" and isinstance(f[1][3], tuple) and f[1][3][0] == "int"
+                   and ((f[1][1] == "Gt" and f[1][3][1] <= 1 and f[2] == 0) or (f[1][1] == "Ge" and f[1][3][1] <= 2 and f[2] == 0) or (f[1][1] == "Lt" and f[1][3][1] <= 2 and f[2] == 1) or (f[1][1] == "Le" and f[1][3][1] <= 1 and f[2] == 1)) for f in st.facts)
+        ok = (bool(srt) or tiny) and r[0] == "agg" and isinstance(r[1], tuple) and r[1][0] == "adt" and r[1][1].endswith("PermutationIter")
         if ok:
             flds = dict(zip(r[1][4], r[2]))
             flagn = [k_ for k_, v_ in flds.items() if v_ in (mk_int(0), mk_int(1))]
-            ok = len(flagn) == 1 and flds.get("data") is not None and flds["data"][0] == "out"
+            # the element storage is the field that is not the flag (whatever it is called)
+            datan = [k_ for k_ in flds if k_ not in flagn]
+            ok = len(flagn) == 1 and len(datan) == 1 and (flds[datan[0]][0] == "out" or (tiny and not srt))
+            if ok:
+                DATA_NAME[0] = datan[0]
             if ok:
                 FLAG0[0] = (flagn[0], flds[flagn[0]])
         key = "%s|sort-then-iter" % fk(b)
@@ -549,7 +563,9 @@ def check(col, prog, tier, profile, fixture=None):
     I = util.analyse(nb, features=("comb", "fncall"))  # `cond.then(|| ..)` / Option combinators are case splits
     adt = util.need_adt(crate, "PermutationIter")
     fn_ = [f["name"] for f in util.fields_of(adt)]
-    FIRST, DATA = fn_.index(FLAG0[0][0]), fn_.index("data")
+    if FLAG0[0][0] not in fn_ or DATA_NAME[0] not in fn_:
+        raise Anchor("PermutationIter: cannot identify the started-flag and the element storage among the fields %s" % fn_)
+    FIRST, DATA = fn_.index(FLAG0[0][0]), fn_.index(DATA_NAME[0])
     V0 = FLAG0[0][1]
     V1 = mk_int(1 - V0[1])
     selfp = ("deref", ("param", 1, I.names.get(1)))
